@@ -18,7 +18,8 @@ import (
 	"verif/harness/lib"
 )
 
-// chunkReader delivers the input in the given chunk lengths (the rest in one piece), then io.EOF.
+// chunkReader delivers the input in the given chunk lengths (the rest in one piece), then io.EOF; a chunk length 0 is
+// an empty read (0, nil).
 type chunkReader struct {
 	data   []byte
 	chunks []int
@@ -30,6 +31,11 @@ func (r *chunkReader) Read(p []byte) (int, error) {
 		return 0, io.EOF
 	}
 	n := len(r.data)
+	if r.ci < len(r.chunks) && r.chunks[r.ci] == 0 {
+		// an EMPTY read: (0, nil), which io.Reader allows; it decides nothing (the model is given the non-empty reads)
+		r.ci++
+		return 0, nil
+	}
 	if r.ci < len(r.chunks) && r.chunks[r.ci] < n {
 		n = r.chunks[r.ci]
 	}
